@@ -97,7 +97,7 @@ pub fn check_digest(t: &dyn Td, w_min: f64, data_points: &[f64], r: &mut FastRng
     }
     // ---- cdf grid
     let span = (mx - mn).max(scale * 1e-3).max(1e-300);
-    let mut xs: Vec<f64> = vec![mn, mx, ulp_up(mn), ulp_down(mn), ulp_up(mx), ulp_down(mx), mn - 1.0, mx + 1.0, mn - span, mx + span, f64::MAX, f64::MIN, mn - 2.0 * tau, mx + 2.0 * tau];
+    let mut xs: Vec<f64> = vec![mn, mx, ulp_up(mn), ulp_down(mn), ulp_up(mx), ulp_down(mx), mn - 1.0, mx + 1.0, mn - span, mx + span, f64::MAX, f64::MIN, f64::INFINITY, f64::NEG_INFINITY, mn - 2.0 * tau, mx + 2.0 * tau];
     for i in 0..=1000 {
         xs.push(mn - 0.05 * span + (1.1 * span) * i as f64 / 1000.0);
     }
@@ -218,7 +218,7 @@ fn check_empty(t: &dyn Td) -> Result<(), (String, String)> {
             return Err(("C15/empty-quantile-not-nan".into(), format!("quantile({}) on an empty digest = {:e}", q, t.quantile(q))));
         }
     }
-    for x in [-1.0, 0.0, 1e300] {
+    for x in [-1.0, 0.0, 1e300, f64::MAX, f64::MIN, f64::INFINITY, f64::NEG_INFINITY] {
         if t.cdf(x) != 0.0 {
             return Err(("C15/empty-cdf-not-0".into(), format!("cdf({}) on an empty digest = {:e}", x, t.cdf(x))));
         }
